@@ -113,7 +113,7 @@ theorem escapeLoop_escaped (fx : Fixes) (brack : Nat) (c : UInt8) (r : Bytes)
           simp [insertion, Tok.bytes, ha, hf']
       · simp only [h0, false_and, if_false, map_map', ih]
         apply map_congr'; intro o
-        simp [insertion, Tok.bytes, h0]
+        simp [insertion, Tok.bytes]
     · simp only [ha, if_false]
       by_cases ho : c = bOpen
       · simp only [ho, if_true, map_map', ih]
@@ -150,7 +150,7 @@ theorem escapeLoop_lit (fx : Fixes) (brack : Nat) (c : UInt8) (r : Bytes) (hb : 
       simp [insertion, Tok.bytes, ha]
     · simp only [h0, if_false]
       apply map_congr'; intro o
-      simp [insertion, Tok.bytes, h0]
+      simp [insertion, Tok.bytes]
   · simp only [ha, if_false]
     by_cases ho : c = bOpen
     · subst ho
@@ -165,7 +165,7 @@ theorem escapeLoop_lit (fx : Fixes) (brack : Nat) (c : UInt8) (r : Bytes) (hb : 
         by_cases h0 : brack = 0
         · simp only [h0, if_true, and_self, specLoop]
         · have hne : ¬ (Tok.lit bClose = Tok.lit bClose ∧ brack = 0) := fun h => h0 h.2
-          simp only [if_true, h0, false_and, if_false, specLoop, hne, newDepth, ho, Bool.false_eq_true, ih]
+          simp only [if_true, h0, false_and, if_false, specLoop, newDepth, ho, Bool.false_eq_true, ih]
           apply map_congr'; intro o
           simp [insertion, Tok.bytes, ha]
       · have hne : ¬ (Tok.lit c = Tok.lit bClose ∧ brack = 0) := by
